@@ -61,4 +61,45 @@ def build (plan : List Seg) (src : Bytes) (o : Own) : Option Bytes := (runPlan s
 /-- the records copied from `src` while doing so -/
 def copiedRecs (plan : List Seg) (src : Bytes) (o : Own) : Option (List Rec) := (runPlan src o plan {}).map (·.copied)
 
+/-! ### Re-parsed unsigned messages (remote signing): TryFrom<Vec<u8>> for UnsignedInvoiceRequest /
+    UnsignedBolt12Invoice split the received bytes into `bytes` / `experimental_bytes`, `sign()` writes
+    `bytes ‖ signature ‖ experimental_bytes`.  The range predicate `p` is `C18Mirror.invreqSplitIn` /
+    `invoiceSplitIn`, translated from the two `TlvStream::new(&bytes).range(R).last()` expressions. -/
+
+/-- mirrors merkle.rs::TlvStream::range for any `RangeBounds` (`skip_while` not in range, `take_while` in range) -/
+def rangeBy (p : Nat → Bool) (rs : List Rec) : List Rec :=
+  (rs.dropWhile (fun r => !p r.ty)).takeWhile (fun r => p r.ty)
+
+/-- mirrors `TlvStream::new(&bytes).range(R).last().map_or(0, |last_record| last_record.end)`: the byte
+    offset at which the last record of the range ends (everything skipped before the range included) -/
+def splitOffset (p : Nat → Bool) (rs : List Rec) : Nat :=
+  if (rangeBy p rs).isEmpty then 0
+  else (recsBytes (rs.takeWhile (fun r => !p r.ty) ++ rangeBy p rs)).length
+
+/-- mirrors TryFrom<Vec<u8>> for Unsigned*: `(bytes, experimental_bytes)` after `bytes.split_off(offset)` -/
+def reparseSplit (p : Nat → Bool) (b : Bytes) : Option (Bytes × Bytes) :=
+  match parseStream b with
+  | none => none
+  | some rs => some (b.take (splitOffset p rs), b.drop (splitOffset p rs))
+
+/-- mirrors the sign methods on a re-parsed unsigned message: `bytes ‖ signature record ‖ experimental_bytes` -/
+def signReparsed (p : Nat → Bool) (b sig : Bytes) : Option Bytes :=
+  (reparseSplit p b).map (fun x => x.1 ++ sig ++ x.2)
+
+/-- strictly ascending record types (what `ParsedMessage::try_from` / the tlv_stream! readers demand) -/
+def ascendingB : List Rec → Bool
+  | [] => true
+  | [_] => true
+  | a :: b :: rest => decide (a.ty < b.ty) && ascendingB (b :: rest)
+
+/-- verdict on the signed bytes: `ok` iff they are a well-formed strictly ascending TLV stream whose
+    non-signature records are exactly the records of the unsigned bytes -/
+def resignVerdict (p : Nat → Bool) (b sig : Bytes) : String :=
+  match signReparsed p b sig, parseStream b with
+  | some out, some rs =>
+    match parseStream out with
+    | none => "malformed"
+    | some rs' => if !ascendingB rs' then "not-ascending" else if Ldk.Merkle.nonSig rs' == rs then "ok" else "contents-differ"
+  | _, _ => "err"
+
 end Ldk.OfferMirror
